@@ -127,8 +127,18 @@ inline void run_kernel(const char* kernel, MA&& mka, MB&& mkb, F&& angle_ab, G&&
     scaled(va, ka, 0, ca);
     scaled(vb, kb, 0, cb);
     const T base = both(ca, cb, family);
-    for (int ea : sc)
-      for (int eb : sc) {
+    // the extreme binades of the non-overflowing range (|a|^2 and a.b stay finite and normal) are
+    // reached only from O(1) multipliers
+    std::vector<int> sa_list = sc, sb_list = sc;
+    const int huge = std::numeric_limits<T>::max_exponent / 2 - 6;  // (12 * 2^huge)^2 * 3 stays finite
+    if (std::fabs((double)ka) <= 3 && std::fabs((double)ka) >= 0.5 && std::fabs((double)kb) <= 3 && std::fabs((double)kb) >= 0.5) {
+      sa_list.push_back(huge);
+      sa_list.push_back(-huge);
+      sb_list.push_back(huge);
+      sb_list.push_back(-huge);
+    }
+    for (int ea : sa_list)
+      for (int eb : sb_list) {
         if (ea == 0 && eb == 0) continue;
         if ((!a_scales && ea) || (!b_scales && eb)) continue;
         T sa[3], sb[3];
